@@ -1245,7 +1245,7 @@ def up1_fw1(proj, rep, modules=None):
         if modules is not None and not any(m.name == q or m.name.startswith(q + '.') for q in modules):
             continue
         fn = fi.node
-        if not isinstance(fn, ast.FunctionDef) or fn.name.startswith('__'):
+        if not isinstance(fn, ast.FunctionDef) or (fn.name.startswith('__') and fn.name != '__init__'):
             continue
         params = [a.arg for a in fn.args.posonlyargs + fn.args.args + fn.args.kwonlyargs if a.arg not in ('self', 'cls', 'ctx')]
         for p in params:
@@ -1262,10 +1262,11 @@ def up1_fw1(proj, rep, modules=None):
                     if not isinstance(c, ast.Call):
                         continue
                     r = resolve_callee(proj, m, c)
-                    if r.kind != 'func' or p not in r.node.all_params or r.node is fi:
+                    callee = r.node if r.kind == 'func' else (r.node.methods.get('__init__') if r.kind == 'class' else None)
+                    if callee is None or p not in callee.all_params or callee is fi:
                         continue
                     try:
-                        b = bind_call(c, r.node)
+                        b = bind_call(c, callee)
                     except Exception:
                         continue
                     n2 += 1
